@@ -90,7 +90,7 @@ func (e *linEnv) lenOf(buf ssa.Value) *linExpr {
 	switch t := buf.(type) {
 	case *ssa.Slice:
 		if _, isStr := t.X.Type().Underlying().(*types.Basic); isStr {
-			break
+			return e.lenOfAny(buf)
 		}
 		var hi *linExpr
 		if t.High != nil {
@@ -416,7 +416,10 @@ func (s *boundSite) goalOf(env *linEnv) *linExpr {
 	return goal.add(env.lenOf(s.Buf), -1)
 }
 
-// boundSites lists the accesses on []byte buffers in fn.
+// withStrings: also list index and slice expressions on strings (set by the callers that want them).
+var withStrings = false
+
+// boundSites lists the accesses on []byte buffers (and, with withStrings, strings) in fn.
 func boundSites(fn *ssa.Function) []*boundSite {
 	var out []*boundSite
 	isBytes := func(t types.Type) bool {
@@ -427,8 +430,28 @@ func boundSites(fn *ssa.Function) []*boundSite {
 		b, ok := sl.Elem().Underlying().(*types.Basic)
 		return ok && b.Kind() == types.Uint8
 	}
+	isString := func(t types.Type) bool {
+		b, ok := t.Underlying().(*types.Basic)
+		return ok && b.Info()&types.IsString != 0
+	}
 	allInstrs(fn, func(in ssa.Instruction) {
 		switch t := in.(type) {
+		case *ssa.Lookup:
+			// s[i] on a string (older go/ssa)
+			if !withStrings || !isString(t.X.Type()) {
+				return
+			}
+			base, k := offsetOf(t.Index)
+			out = append(out, &boundSite{Fn: fn, Instr: in, Buf: t.X, Upper: base, UpperK: k + 1, Kind: "index"})
+			return
+		case *ssa.Index:
+			// s[i] on a string
+			if !withStrings || !isString(t.X.Type()) {
+				return
+			}
+			base, k := offsetOf(t.Index)
+			out = append(out, &boundSite{Fn: fn, Instr: in, Buf: t.X, Upper: base, UpperK: k + 1, Kind: "index"})
+			return
 		case *ssa.IndexAddr:
 			if !isBytes(t.X.Type()) {
 				return
@@ -436,7 +459,7 @@ func boundSites(fn *ssa.Function) []*boundSite {
 			base, k := offsetOf(t.Index)
 			out = append(out, &boundSite{Fn: fn, Instr: in, Buf: t.X, Upper: base, UpperK: k + 1, Kind: "index"})
 		case *ssa.Slice:
-			if !isBytes(t.X.Type()) {
+			if !isBytes(t.X.Type()) && !(withStrings && isString(t.X.Type())) {
 				return
 			}
 			if t.High != nil {
@@ -496,6 +519,7 @@ type boundsProver struct {
 	post    map[*ssa.Function]map[int]int // function -> result index of an offset -> index of the buffer parameter; success implies ret <= len(param)
 	callers map[*ssa.Function][]ssa.CallInstruction
 	inPre   map[*ssa.Function]bool
+	predK   map[*ssa.Function]int64
 }
 
 func newBoundsProver(c *Ctx, e *aliasEngine, scope map[*ssa.Function]bool) *boundsProver {
@@ -657,6 +681,50 @@ func (bp *boundsProver) factsAtPoint(f *ssa.Function, blk *ssa.BasicBlock, extra
 				lf := env.lin(exk).add(env.lenOf(args[bi]), -1)
 				out = append(out, linFact{lf: lf, why: "postcondition of " + calleeNameSSA(&call.Call)})
 			}
+		}
+	}
+	// predicate postconditions: a call p(x) that came out true, where p returns true only when len(param) >= K
+	for _, ft := range facts {
+		call, ok := ft.Atom.(*ssa.Call)
+		if !ok || !ft.Holds || len(call.Call.Args) != 1 {
+			continue
+		}
+		g := call.Call.StaticCallee()
+		if g == nil {
+			continue
+		}
+		if k := bp.predicateMinLen(g); k > 0 {
+			lf := newLin()
+			lf.c = k
+			lf = lf.add(env.lenOfAny(call.Call.Args[0]), -1)
+			out = append(out, linFact{lf: lf, why: fmt.Sprintf("%s() is true only for arguments of length >= %d", g.Name(), k)})
+		}
+	}
+	// disequalities: a != b together with a <= b gives a <= b-1 (and symmetrically)
+	for _, ft := range facts {
+		b, ok := ft.Atom.(*ssa.BinOp)
+		if !ok {
+			continue
+		}
+		ne := (b.Op == token.NEQ && ft.Holds) || (b.Op == token.EQL && !ft.Holds)
+		if !ne {
+			continue
+		}
+		if bt, ok := b.X.Type().Underlying().(*types.Basic); !ok || bt.Info()&types.IsInteger == 0 {
+			continue
+		}
+		x, y := env.lin(b.X), env.lin(b.Y)
+		d := x.add(y, -1) // x - y
+		if env.entailsLin(out, d) {
+			s1 := x.add(y, -1)
+			s1.c++
+			out = append(out, linFact{lf: s1, why: "x <= y and x != y"})
+		}
+		d2 := y.add(x, -1)
+		if env.entailsLin(out, d2) {
+			s2 := y.add(x, -1)
+			s2.c++
+			out = append(out, linFact{lf: s2, why: "y <= x and x != y"})
 		}
 	}
 	// stride facts: loop counter i (init 0, step s) with i < len(X) and len(Y) % s == 0, len(X) == len(Y)  =>  i + s <= len(X)
@@ -931,4 +999,78 @@ func (bp *boundsProver) proveInductive(s *boundSite) bool {
 		}
 	}
 	return true
+}
+
+// lenOfAny: len of a slice or string value.
+func (e *linEnv) lenOfAny(v ssa.Value) *linExpr {
+	if _, isSlice := v.Type().Underlying().(*types.Slice); isSlice {
+		return e.lenOf(v)
+	}
+	// a string slice s[lo:hi]: hi - lo
+	if sl, ok := v.(*ssa.Slice); ok {
+		var hi *linExpr
+		if sl.High != nil {
+			hi = e.lin(sl.High)
+		} else {
+			hi = e.lenOfAny(sl.X)
+		}
+		if sl.Low != nil {
+			return hi.add(e.lin(sl.Low), -1)
+		}
+		return hi
+	}
+	return e.lenAtom(v)
+}
+
+// predicateMinLen: for a one-parameter function returning bool, the largest K (up to 8) such that every return
+// that can yield true is behind len(param) >= K. 0 when nothing is known.
+func (bp *boundsProver) predicateMinLen(g *ssa.Function) int64 {
+	if bp.predK == nil {
+		bp.predK = map[*ssa.Function]int64{}
+	}
+	if k, ok := bp.predK[g]; ok {
+		return k
+	}
+	bp.predK[g] = 0
+	if len(g.Params) != 1 || g.Signature.Results().Len() != 1 || len(g.Blocks) == 0 {
+		return 0
+	}
+	if b, ok := g.Signature.Results().At(0).Type().Underlying().(*types.Basic); !ok || b.Kind() != types.Bool {
+		return 0
+	}
+	best := int64(8)
+	n := 0
+	for _, rp := range returnPoints(g, 0) {
+		v := rp.Results[0]
+		extra := append([]Fact{}, rp.EdgeFacts...)
+		if bv, isB := constBool(v); isB {
+			if !bv {
+				continue
+			}
+		} else {
+			atom, pol := condAtom(v)
+			extra = append(extra, Fact{Atom: atom, Holds: pol})
+		}
+		n++
+		env := newLinEnv()
+		facts := bp.factsAtPoint(g, rp.Block, extra, env)
+		k := int64(0)
+		for try := int64(8); try >= 1; try-- {
+			goal := newLin()
+			goal.c = try
+			goal = goal.add(env.lenOfAny(g.Params[0]), -1)
+			if env.entailsLin(facts, goal) {
+				k = try
+				break
+			}
+		}
+		if k < best {
+			best = k
+		}
+	}
+	if n == 0 {
+		best = 0
+	}
+	bp.predK[g] = best
+	return best
 }
